@@ -19,6 +19,7 @@ VARIABLES tid, l,
           rep,        \* C01: replica = start tree + Apply(delivered created/deleted/moved events)
           pendp,      \* C02/C07: probes not yet reported
           facts,      \* C03: what the history did so far (from opb lines)
+          gone,       \* old in-tree paths of directories that were moved out (deviation D7: they keep their kernel watch)
           dfacts,     \* C03: what operations on a moved-OUT directory would be if it were still in the tree (deviation D7)
           win,        \* C03 contract: events of handler 1 since the last quiescent line
           winops,     \* C03 contract: operations begun since the last quiescent line
@@ -26,13 +27,13 @@ VARIABLES tid, l,
           s1, s2,     \* C11: event sequences of the unfiltered (1) and the filtered (2) handler
           rootdel,    \* C07: number of DirDeleted(root) callbacks
           viol
-vars == <<tid, l, cfg, rep, pendp, facts, dfacts, win, winops, pre, s1, s2, rootdel, viol>>
+vars == <<tid, l, cfg, rep, pendp, facts, dfacts, gone, win, winops, pre, s1, s2, rootdel, viol>>
 
 Tr == AllTraces[tid]
 ASSUME InitRegs
 
 NoCfg == [recursive |-> TRUE, full |-> FALSE, ty |-> "str", paced |-> TRUE, filter |-> << >>, contract |-> FALSE]
-Init == /\ tid \in 1..NTraces /\ l = 1 /\ cfg = NoCfg /\ rep = {} /\ pendp = {} /\ facts = {} /\ dfacts = {} /\ win = << >> /\ winops = << >>
+Init == /\ tid \in 1..NTraces /\ l = 1 /\ cfg = NoCfg /\ rep = {} /\ pendp = {} /\ facts = {} /\ dfacts = {} /\ gone = {} /\ win = << >> /\ winops = << >>
         /\ pre = {} /\ s1 = << >> /\ s2 = << >> /\ rootdel = 0 /\ viol = {}
 
 Line(k) == l <= Len(Tr) /\ Tr[l].e = k
@@ -92,6 +93,8 @@ Apply(r, x) ==
                         ELSE IF ~x.hd THEN ApplyDeleted(r, x.src)
                         ELSE ApplyMoved(r, x.src, x.dst, k)
       [] OTHER -> r
+\* entries that are not below the old path of a directory that left the tree (deviation D7)
+NotGone(r) == {e \in r : ~\E g \in gone : Pre(g, e.p)}
 Scope(t) == IF cfg.recursive THEN t ELSE {e \in t : Len(e.p) = 1}          \* non-recursive: the root's direct children
 
 \* ---------------------------------------------------------------------------- C03: justification by the history
@@ -126,7 +129,9 @@ OpFacts(o) ==
 \* Deviation D7 (known finding): a directory moved out of the tree keeps its kernel watch, so operations on it
 \* out there are reported under its old in-tree name.  The harness records such an operation with `alias` = the
 \* path the entry would have if the directory had not left; DevFacts are the facts of that hypothetical operation.
-DevFacts(o) == IF o.k \in {"owrite", "ocreat", "omkdir", "ounlink", "ormdir"} /\ Len(o.alias) > 0
+DevFacts(o) == IF o.k = "moveout" /\ Len(o.alias) > 0 THEN OpFacts([o EXCEPT !.k = "rename", !.q = o.alias])
+               ELSE IF o.k = "movein" /\ Len(o.alias) > 0 THEN OpFacts([o EXCEPT !.k = "rename", !.p = o.alias])
+               ELSE IF o.k \in {"owrite", "ocreat", "omkdir", "ounlink", "ormdir"} /\ Len(o.alias) > 0
                THEN OpFacts([o EXCEPT !.k = (CASE o.k = "owrite" -> "write" [] o.k = "ocreat" -> "creat" [] o.k = "omkdir" -> "mkdir"
                                                   [] o.k = "ounlink" -> "unlink" [] OTHER -> "rmdir"), !.p = o.alias]) ELSE {}
 ProbeFacts(p) == {F("created", p, << >>, "file"), F("opened", p, << >>, "file"), F("closed", p, << >>, "file"), F("dirmod", Parent(p), << >>, "dir")}
@@ -199,18 +204,21 @@ Keep(s) == SelectSeq(s, LAMBDA x : x.cls \in FilterSet)
 
 \* ---------------------------------------------------------------------------- lines
 Cfg == /\ Line("cfg") /\ Consume /\ cfg' = Tr[l]
-       /\ UNCHANGED <<rep, pendp, facts, dfacts, win, winops, pre, s1, s2, rootdel, viol>>
+       /\ UNCHANGED <<rep, pendp, facts, dfacts, gone, win, winops, pre, s1, s2, rootdel, viol>>
 
 OpBegin == /\ Line("opb") /\ Consume
            /\ facts' = facts \cup OpFacts(Tr[l].op)
            /\ dfacts' = dfacts \cup DevFacts(Tr[l].op)
+           /\ gone' = LET o == Tr[l].op
+                          made == IF o.k \in {"mkdir", "makedirs"} THEN {o.p} ELSE IF o.k \in {"rename", "movein"} THEN {o.q} ELSE {} IN
+                      (gone \ made) \cup (IF o.k = "moveout" /\ o.kind = "dir" THEN {o.p} ELSE {})
            /\ winops' = Append(winops, Tr[l].op)
            /\ UNCHANGED <<cfg, rep, pendp, win, pre, s1, s2, rootdel, viol>>
-OpEnd == /\ Line("op") /\ Consume /\ UNCHANGED <<cfg, rep, pendp, facts, dfacts, win, winops, pre, s1, s2, rootdel, viol>>
+OpEnd == /\ Line("op") /\ Consume /\ UNCHANGED <<cfg, rep, pendp, facts, dfacts, gone, win, winops, pre, s1, s2, rootdel, viol>>
 
 Probe == /\ Line("probe") /\ Consume
          /\ pendp' = pendp \cup {Tr[l].path}
-         /\ facts' = facts \cup ProbeFacts(Tr[l].path) /\ UNCHANGED dfacts
+         /\ facts' = facts \cup ProbeFacts(Tr[l].path) /\ UNCHANGED <<dfacts, gone>>
          /\ winops' = Append(winops, [k |-> "probe"])
          /\ UNCHANGED <<cfg, rep, win, pre, s1, s2, rootdel, viol>>
 
@@ -231,7 +239,7 @@ Cb == /\ Line("cb") /\ Consume
               \* C19: path type preserved, every component is an exact name of the tree
               \cup (IF (x.hs /\ Tr[l].ty # cfg.ty) \/ (x.hd /\ Tr[l].ty2 # cfg.ty) THEN {"P_C19_TypePreserved"} ELSE {})
               \cup (IF "?" \in SetOfSeq(x.src) \/ "?" \in SetOfSeq(x.dst) THEN {"P_C19_ExactName"} ELSE {})
-      /\ UNCHANGED <<cfg, facts, dfacts, winops, pre>>
+      /\ UNCHANGED <<cfg, facts, dfacts, gone, winops, pre>>
 
 Quiescent ==
     /\ Line("quiescent") /\ Consume
@@ -240,7 +248,10 @@ Quiescent ==
        /\ pre' = t
        /\ viol' = viol
             \* C01: the replica equals the real tree whenever the stream has drained (paced histories)
-            \cup (IF Tr[l].phase # "start" /\ cfg.paced /\ rootdel = 0 /\ Scope(rep) # Scope(t) THEN {"P_C01_ReplicaMatches"} ELSE {})
+            \cup (IF Tr[l].phase # "start" /\ cfg.paced /\ rootdel = 0 /\ Scope(rep) # Scope(t)
+                  THEN (IF Scope(NotGone(rep)) = Scope(NotGone(t)) THEN {"P_C01_ReplicaMatchesDevMovedOutKeepsWatch"}
+                                                                  ELSE {"P_C01_ReplicaMatches"})
+                  ELSE {})
             \* C02 / C07: every probe made since the last drain point was reported (recursive: everywhere; else depth 1)
             \cup (IF \E p \in pendp : (cfg.recursive \/ Len(p) = 1) THEN
                      {IF cfg.paced THEN "P_C02_ProbeReported" ELSE "P_C07_StillReporting"} ELSE {})
@@ -249,7 +260,7 @@ Quiescent ==
                      /\ winops[1].k \in {"mkdir", "creat", "write", "read", "chmod", "unlink", "rmdir", "rename", "moveout", "movein"}
                   THEN ContractClauses(winops[1], win) ELSE {})
     /\ pendp' = {} /\ win' = << >> /\ winops' = << >>
-    /\ UNCHANGED <<cfg, facts, dfacts, s1, s2, rootdel>>
+    /\ UNCHANGED <<cfg, facts, dfacts, gone, s1, s2, rootdel>>
 
 Final == /\ Line("final") /\ Consume
          /\ viol' = viol
@@ -261,11 +272,11 @@ Final == /\ Line("final") /\ Consume
               \cup (IF ~Tr[l].root_alive /\ TRUE \in SetOfSeq(Tr[l].emitters_alive) THEN {"P_C07_EmitterStopsWhenRootGone"} ELSE {})
               \cup (IF Tr[l].root_alive /\ FALSE \in SetOfSeq(Tr[l].emitters_alive) THEN {"P_C07_EmitterAlive"} ELSE {})
               \cup (IF Len(Tr[l].live) > 0 THEN {"P_C06_AllExited"} ELSE {})
-         /\ UNCHANGED <<cfg, rep, pendp, facts, dfacts, win, winops, pre, s1, s2, rootdel>>
+         /\ UNCHANGED <<cfg, rep, pendp, facts, dfacts, gone, win, winops, pre, s1, s2, rootdel>>
 Uncaught == /\ Line("uncaught") /\ Consume /\ viol' = viol \cup {"P_C07_NoUncaught"}
-            /\ UNCHANGED <<cfg, rep, pendp, facts, dfacts, win, winops, pre, s1, s2, rootdel>>
+            /\ UNCHANGED <<cfg, rep, pendp, facts, dfacts, gone, win, winops, pre, s1, s2, rootdel>>
 Deadlock == /\ Line("deadlock") /\ Consume /\ viol' = viol \cup {"P_C06_NoDeadlock"}
-            /\ UNCHANGED <<cfg, rep, pendp, facts, dfacts, win, winops, pre, s1, s2, rootdel>>
+            /\ UNCHANGED <<cfg, rep, pendp, facts, dfacts, gone, win, winops, pre, s1, s2, rootdel>>
 
 Next == TLCGet(BIG + tid) = 0 /\ (Cfg \/ OpBegin \/ OpEnd \/ Probe \/ Cb \/ Quiescent \/ Final \/ Uncaught \/ Deadlock)
 Spec == Init /\ [][Next]_vars
